@@ -62,7 +62,7 @@ func runC14(c *core.Ctx) {
 	if r.Chance(2, 3) {
 		n = r.Range(0, 30)
 	}
-	if c.Index%400 == 11 {
+	if c.Index%400 == 11 && c.Mode != "par" {
 		c14big(c)
 		return
 	}
@@ -227,6 +227,78 @@ func c14nested(c *core.Ctx, in []string, r *core.Rand) bool {
 	}
 	if innerMsg != "" {
 		return fail("nested-helper-call", "inside a callback: "+innerMsg)
+	}
+	// the same slice changed in place and passed again: every helper must look at it afresh
+	{
+		_ = slices.Distinct(in)
+		_ = slices.Index(in, in[0])
+		_ = slices.GroupBy(in, func(v string) string { return v })
+		_ = slices.CountBy(in, func(v string) string { return v })
+		old0 := in[0]
+		in[0] = "<changed-in-place>"
+		d := slices.Distinct(in)
+		g := slices.GroupBy(in, func(v string) string { return v })
+		cb := slices.CountBy(in, func(v string) string { return v })
+		bad := len(d) == 0 || d[0] != in[0] || slices.Index(in, in[0]) != 0 || !slices.Contains(in, in[0]) ||
+			len(g) == 0 || g[0].Key != in[0] || len(cb) == 0 || cb[0].Key != in[0] || cb[0].Count != 1 ||
+			slices.Last(in) != in[len(in)-1] || slices.Map(in, func(v string) string { return v })[0] != in[0]
+		in[0] = old0
+		if bad {
+			return fail("stale-after-in-place-change", "a helper called again after the slice was changed in place does not show the change")
+		}
+	}
+	// callbacks that panic half way (the caller recovers): the next, ordinary call of the
+	// same helper must not see anything left over from the aborted one
+	{
+		boomAt := r.Intn(len(in))
+		try := func(f func()) { defer func() { recover() }(); f() }
+		calls := 0
+		boom := func() {
+			if calls == boomAt {
+				calls++
+				panic("callback panics")
+			}
+			calls++
+		}
+		try(func() { slices.CountBy(in, func(v string) string { boom(); return strings.ToLower(v) }) })
+		calls = 0
+		try(func() { slices.GroupBy(in, func(v string) string { boom(); return strings.ToLower(v) }) })
+		calls = 0
+		try(func() { slices.Filter(in, func(v string) bool { boom(); return true }) })
+		calls = 0
+		try(func() { slices.Map(in, func(v string) string { boom(); return v }) })
+		calls = 0
+		try(func() { slices.DistinctFunc(in, func(a, b string) bool { boom(); return a == b }) })
+		calls = 0
+		try(func() { slices.Fold(in, 0, func(st int, v string) int { boom(); return st + 1 }) })
+		cnt := map[string]int{}
+		var order []string
+		for _, v := range snap {
+			k := strings.ToLower(v)
+			if cnt[k] == 0 {
+				order = append(order, k)
+			}
+			cnt[k]++
+		}
+		cs := slices.CountBy(in, func(v string) string { return strings.ToLower(v) })
+		gs2 := slices.GroupBy(in, func(v string) string { return strings.ToLower(v) })
+		okc := len(cs) == len(order) && len(gs2) == len(order)
+		for i := 0; okc && i < len(order); i++ {
+			okc = cs[i].Key == order[i] && cs[i].Count == cnt[order[i]] && gs2[i].Key == order[i] && len(gs2[i].Values) == cnt[order[i]]
+		}
+		if !okc {
+			return fail("CountBy/GroupBy:after-panicking-callback", fmt.Sprintf("after a CountBy/GroupBy call whose keyer panicked (recovered by the caller), an ordinary call gives %v / %d groups; the definition gives keys %q with counts %v", cs, len(gs2), order, cnt))
+		}
+		if got := slices.Filter(in, func(v string) bool { return true }); !eqSlice(got, snap) {
+			return fail("Filter:after-panicking-callback", "after a Filter call whose predicate panicked, Filter(true) does not return every element")
+		}
+		if got := slices.Map(in, func(v string) string { return v }); !eqSlice(got, snap) {
+			return fail("Map:after-panicking-callback", "after a Map call whose converter panicked, Map(identity) is not the identity")
+		}
+		if got := slices.Fold(in, 0, func(st int, v string) int { return st + 1 }); got != len(snap) {
+			return fail("Fold:after-panicking-callback", "after a Fold call whose accumulator panicked, a counting Fold miscounts")
+		}
+		c.Count("helper_calls_after_panicking_callbacks", 1)
 	}
 	// results are the caller's: kept across later calls of the same helpers on OTHER
 	// data, they must not change (a helper handing out a pooled or shared buffer would)
@@ -703,6 +775,31 @@ func funcAll(c *core.Ctx, in []string, r *core.Rand) bool {
 				if len(snap) > 0 {
 					ex[r.Intn(len(ex))] = snap[r.Intn(len(snap))]
 				}
+			}
+		}
+		// an exclusion list many times longer than the slice (and with repeats), holding
+		// values that occur several times in the slice
+		if n > 0 && n <= 400 {
+			ex := make([]string, 0, 20*n+20)
+			for i := 0; i < r.Range(8*n+1, 20*n+17); i++ {
+				if i%5 == 0 {
+					ex = append(ex, snap[r.Intn(n)])
+				} else {
+					ex = append(ex, fmt.Sprintf("absent%d", i%37))
+				}
+			}
+			var w []string
+			exm := map[string]bool{}
+			for _, v := range ex {
+				exm[v] = true
+			}
+			for _, v := range snap {
+				if !exm[v] {
+					w = append(w, v)
+				}
+			}
+			if g := slices.Except(in, ex); !eqSlice(g, w) {
+				return fail("Except:long-exclusion-list", fmt.Sprintf("Except with an exclusion list of %d entries (slice of %d) gives %q want %q", len(ex), n, clipS(g), clipS(w)))
 			}
 		}
 		c.Count("except", 6)
